@@ -217,6 +217,15 @@ def check_message(ctx, spy, m, info):
         norm = (lambda v: merge_view(GM.fold_view(v))) if collide else merge_view
         if collide:
             ctx.count("obs.case_collision_messages")
+        if update:
+            # RFC 2136 2.4 / 2.5: the data-less forms (class ANY, class NONE without RDATA) carry TTL 0, whatever TTL attribute the
+            # object they were rendered from happens to have
+            ctx.count("mon.update_dataless_forms_ttl")
+            for si, recs in enumerate(walk["records"][:2]):
+                for labels, t, c, ttl, off, rdlen in recs:
+                    if rdlen == 0 and c in (254, 255) and ttl != 0:
+                        ctx.violation("update-data-less-form-rendered-with-a-ttl", f"section {si + 1}: class {c} type {t} TTL {ttl}", case)
+                        break
         want_view = norm(GM.wire_view(m))
         got_view = norm(walker_view(w, walk, update))
         want_wire = norm(wire_class_only(GM.wire_view(m)))  # the independent walker sees the class on the wire only
